@@ -1,4 +1,6 @@
 """C36 — the trace database records exactly the traced tasks (spec/tracing/DBTracer.tla)."""
+import collections
+
 from vlib import core
 
 LEVEL = "model_checking"
@@ -6,7 +8,12 @@ TECHNIQUE = ("TLA+ specification of the database contents as sets defined from t
              "whose interval meets a window and that ended before Terminate, their tags, one milestone per instant, one "
              "segment per window), model-checked by TLC over every interleaving of task events with StartTracing / "
              "StopTracing / Terminate within the bounds; every stream is replayed on the real tracing.DBTracer over a "
-             "recording DataRecorder stub and, for a seeded sample, over the real SQLite recorder read back with the real reader")
+             "recording DataRecorder stub and, for a seeded sample, over the real SQLite recorder read back with the real reader; "
+             "two goroutines: neighbouring calls A, B of a stream (same instant) are run concurrently under a gate-controlled "
+             "schedule — the DataRecorder handed to the tracer parks A at a chosen InsertData / Flush call (every insert of an "
+             "EndTask, the segment insert and the flushes of StopTracing / Terminate), B is started and classified (blocked / "
+             "completed while A is parked), A is released — and the flushed rows must equal the specification's sets for the "
+             "stream with A;B or with B;A")
 LEVEL_TEXT = ("Exhaustive within bounds: all interleavings of <=3 tasks with <=2 tracing windows and one unmatched "
               "StopTracing; <=2 tasks with tags and <=3 milestones and one window; tags / milestones that name a task before "
               "it starts; each with distinct event times ('step' clock) and, in the same-instant profiles, with the clock "
@@ -17,7 +24,11 @@ LEVEL_NOTE = ("Bounded (profiles in DBTracer.tla, selected by the cfg files). 'R
               "or starts while it is on); TLC checks that this reading is bracketed by the timestamp readings. Not explored "
               "because the statement does not fix the meaning: StartTracing while tracing is on, tags/milestones of ended "
               "tasks, calls after Terminate. The SQLite read-back runs on a seeded sample (100 streams quick, 1500 "
-              "thorough); the stub backend sees every stream. TLC and Go are trusted.")
+              "thorough); the stub backend sees every stream. Two-goroutine schedules: a seeded sample spread evenly over the shapes "
+              "(A kind x gate x B kind; 600 quick, 9000 thorough) of all pairs whose two orders are streams of the model (free-clock "
+              "profiles; Terminate || EndTask in both roles), one gate per run, over a buffering stub whose database is what was "
+              "inserted before the last Flush; only interleavings reachable by parking inside the recorder are controlled. "
+              "TLC and Go are trusted.")
 
 OPS = {0: "start", 1: "end", 2: "tag", 3: "milestone", 4: "StartTracing", 5: "StopTracing", 6: "Terminate"}
 
@@ -121,6 +132,165 @@ def nontrivial(b):
         any(e[0] == 5 and e[3] == 1 for e in h) or any(h[i][2] == h[i + 1][2] for i in range(len(h) - 1))
 
 
+# ---- two goroutines: gate-controlled schedules of two tracer calls (driver dbtracerconc)
+
+def restamp(h):
+    """The stream h as a sequence of CALLS: the x of a StopTracing (1 = tracing is off) is recomputed from the order."""
+    out, on = [], False
+    for op, task, time, x in h:
+        if op == 4:
+            on = True
+        elif op == 5:
+            x = 0 if on else 1
+            on = False
+        elif op == 6:
+            on = False
+        out.append([op, task, time, x])
+    return out
+
+
+def tracing_on_before(h, i):
+    on = False
+    for op, task, time, x in h[:i]:
+        if op == 4:
+            on = True
+        elif op in (5, 6):
+            on = False
+    return on
+
+
+def expected_of(b, remap=None):
+    """The sets of a BEHAVIOUR as the driver's alternative; remap renames stream positions (row ids of tags / milestones)."""
+    r = remap or {}
+    return {"h": b["h"], "tasks": b["tasks"], "segs": b["segs"],
+            "tags": [[r.get(t[0], t[0])] + list(t[1:]) for t in b["tags"]],
+            "ms": [[g[0], g[1], [r.get(q, q) for q in g[2]]] for g in b["ms"]]}
+
+
+def inserts_of_end(b, task):
+    """How many rows EndTask(task) writes in stream b: the task row, one row per milestone instant, one per tag."""
+    if not any(t[0] == task for t in b["tasks"]):
+        return 0
+    return 1 + sum(1 for g in b["ms"] if g[0] == task) + sum(1 for t in b["tags"] if t[1] == task)
+
+
+def conc_cases(index):
+    """Every (stream, neighbouring pair A,B at one instant) such that both orders are streams of the model, A writes
+    to the recorder (EndTask of a recorded task, StopTracing of an open window, Terminate), with every gate inside A."""
+    cases, skipped = [], 0
+    for key, b in index.items():
+        h = b["h"]
+        n = len(h)
+        for i in range(n - 1):
+            A, B = h[i], h[i + 1]
+            if A[2] != B[2]:
+                continue
+            if A[0] == 1:
+                gates = [("insert", k) for k in range(inserts_of_end(b, A[1]))]
+            elif A[0] == 5 and A[3] == 0:
+                gates = [("insert", 0), ("flush", 0)]
+            else:
+                continue
+            if not gates:
+                continue
+            if B[0] == 6:
+                swapped, remap, suffix = h[:i] + [B], None, []
+            else:
+                swapped = restamp(h[:i] + [B, A] + h[i + 2:])
+                remap = {i + 1: i + 2, i + 2: i + 1}
+                suffix = h[i + 2:]
+            other = index.get(core.canon(swapped))
+            if other is None:
+                skipped += 1      # the other order is not a stream of the model (meaning not fixed by the statement)
+                continue
+            alts = [expected_of(b), expected_of(other, remap)]
+            for kind, k in gates:
+                cases.append({"prefix": h[:i], "a": A, "b": B, "suffix": suffix, "gate": {"kind": kind, "k": k}, "alts": alts,
+                              "riders": len(gates) > 1 and A[0] == 1})
+        # Terminate as the parked call, EndTask racing with it
+        if n >= 2 and h[-2][0] == 1 and h[-2][2] == h[-1][2]:
+            other = index.get(core.canon(h[:-2] + [h[-1]]))
+            if other is not None:
+                gates = [("insert", 0), ("flush", 0), ("flush", 1)] if tracing_on_before(h, n - 1) else [("flush", 0)]
+                alts = [expected_of(b), expected_of(other)]
+                for kind, k in gates:
+                    cases.append({"prefix": h[:-2], "a": h[-1], "b": h[-2], "suffix": [], "gate": {"kind": kind, "k": k},
+                                  "alts": alts, "riders": inserts_of_end(b, h[-2][1]) > 1})
+    return cases, skipped
+
+
+def conc(ck, binary, index, quick):
+    cases, skipped = conc_cases(index)
+    if not cases:
+        raise core.Broken("no two-call schedules could be derived from the streams of the model")
+    # a seeded sample, spread evenly over the shapes (A kind, gate, B kind, riders or not)
+    shapes = {}
+    for c in cases:
+        shapes.setdefault((c["a"][0], c["gate"]["kind"], c["gate"]["k"], c["b"][0], c["riders"]), []).append(c)
+    budget = 600 if quick else 9000
+    for k in shapes:
+        ck.rng.shuffle(shapes[k])
+    chosen, depth = [], 0
+    while len(chosen) < budget and any(len(v) > depth for v in shapes.values()):
+        for k in sorted(shapes):
+            if len(shapes[k]) > depth and len(chosen) < budget:
+                chosen.append(shapes[k][depth])
+        depth += 1
+    payload = [{k: v for k, v in c.items() if k != "riders"} for c in chosen]
+    out = core.harness(binary, "dbtracerconc", {"cases": payload}, timeout=900)
+    res = out["results"]
+    if len(res) != len(chosen):
+        raise core.Broken("dbtracerconc returned %d results for %d cases" % (len(res), len(chosen)))
+    parked = blocked = completed = bad = 0
+    kinds = collections.Counter()
+    for c, r in zip(chosen, res):
+        a, bb = OPS[c["a"][0]], OPS[c["b"][0]]
+        kinds["%s@%s%d || %s" % (a, c["gate"]["kind"], c["gate"]["k"], bb)] += 1
+        if r["parked"]:
+            parked += 1
+            if r["b_class"] == "blocked":
+                blocked += 1
+            else:
+                completed += 1
+        if r["alt"] >= 0 and not r.get("panic"):
+            continue
+        bad += 1
+        sched = "%s || %s after %s, A parked at its %s #%d (%s), B %s, then %s" % (
+            pretty([c["a"]])[0], pretty([c["b"]])[0], " ".join(pretty(c["prefix"])) or "nothing", c["gate"]["kind"], c["gate"]["k"],
+            "parked" if r["parked"] else "never parked", r["b_class"] or "ran after A", " ".join(pretty(c["suffix"])) or "nothing")
+        if r.get("panic"):
+            key = {"table": "panic", "class": "two_calls", "backend": "gated-stub"}
+            desc = "two concurrent tracer calls: %s: panic %s" % (sched, r["panic"])
+        else:
+            tables = sorted(set(t for ts in r.get("tables") or [] for t in ts)) or ["backend"]
+            key = {"table": tables[0], "class": "two_calls", "backend": "gated-stub", "a": a, "b": bb,
+                   "b_completed_while_a_parked": r["b_class"] == "completed"}
+            desc = ("two concurrent tracer calls: %s: the database (rows flushed by the end of the run) is %s, which is what the "
+                    "specification gives for neither order of the two calls (A;B: tasks %s tags %s milestones %s segments %s | B;A: tasks %s "
+                    "tags %s milestones %s segments %s); %d rows were handed to the recorder after its last Flush%s" % (
+                        sched, core.canon(r["got"]),
+                        core.canon(c["alts"][0]["tasks"]), core.canon(c["alts"][0]["tags"]), core.canon(c["alts"][0]["ms"]), core.canon(c["alts"][0]["segs"]),
+                        core.canon(c["alts"][1]["tasks"]), core.canon(c["alts"][1]["tags"]), core.canon(c["alts"][1]["ms"]), core.canon(c["alts"][1]["segs"]),
+                        r["unflushed"], ("; rows of task(s) %s were split by a Flush" % r["partial"]) if r.get("partial") else ""))
+        ck.report(key, desc, {"driver": "dbtracerconc", "cases": [{k: v for k, v in c.items() if k != "riders"}], "result": r})
+    ck.cov["traces_validated_against_impl"] += len(chosen)
+    ck.cov["evaluations"] += out["steps"]
+    ck.cov["two_call_schedules"] = len(chosen)
+    ck.cov["two_call_schedules_a_parked_in_recorder"] = parked
+    ck.cov["two_call_schedules_b_blocked_while_a_parked"] = blocked
+    ck.cov["two_call_schedules_b_completed_while_a_parked"] = completed
+    ck.cov["two_call_schedule_shapes"] = dict(sorted(kinds.items()))
+    ck.note("two goroutines: %d gate-controlled schedules (of %d derivable; %d pairs skipped because the other order is not a stream of "
+            "the model), %d with riders; A parked inside the recorder in %d, B blocked while A was parked in %d, completed in %d; "
+            "%d outcomes match neither sequential order" % (len(chosen), len(cases), skipped, sum(1 for c in chosen if c["riders"]),
+                                                             parked, blocked, completed, bad))
+    if parked == 0 and not ck.violations:
+        raise core.Broken("call A never parked inside the recorder in %d schedules: the gate does not work" % len(chosen))
+    if parked < len(chosen) and not ck.violations:
+        raise core.Broken("call A did not reach its gate in %d of %d schedules although the stub replay found every row written" % (
+            len(chosen) - parked, len(chosen)))
+
+
 def run(ck):
     quick = ck.tier == "quick"
     cfg = CFG[ck.tier]
@@ -160,6 +330,17 @@ def run(ck):
         riders = [b for label, bs in every if label == "riders1big" for b in bs]
         chosen = ck.rng.sample(riders, min(750, len(riders))) + ck.rng.sample(pool, min(750, len(pool)))
     replay(ck, binary, chosen, "sqlite", "sqlite", batch=500)
+    # two goroutines: pairs of neighbouring calls of a stream, run concurrently under a gate in the recorder
+    index = {}
+    for b in allb:
+        index.setdefault(core.canon(b["h"]), b)
+    try:
+        conc(ck, binary, index, quick)
+    except core.Broken as e:
+        if not ck.violations:
+            raise
+        # the sequential replay already contradicts the statement: the two-goroutine phase is not needed for the verdict
+        ck.note("two goroutines: not completed (%s); the violations above stand" % str(e).strip().splitlines()[0])
     ck.cov["distinct_nontrivial"] = nt
     ck.cov["exhaustive"] = True
     ck.cov["rule"] = ("TLC enumerates every stream of the bounded model (tasks started in ID order; start/end/tag/milestone "
@@ -176,4 +357,6 @@ def run(ck):
         "a tracing window still open at Terminate is closed by it (segment ends at the termination time)",
         "StartTracing while tracing is on, tags/milestones after a task's end and calls after Terminate are not explored",
         "stub backend = what is handed to DataRecorder.InsertData; SQLite backend is read after Terminate and recorder Close",
+        "two-goroutine schedules: the database is the rows handed to the recorder before its last Flush (Terminate flushes; rows that "
+        "arrive later stay in the recorder's buffer); a call that overlaps Terminate may be ordered after it, where it has no effect",
     ]
